@@ -357,6 +357,10 @@ pub fn case_names(scratch: &Path, meta: usize, id: &str, seed: u64, len: usize, 
                 r.apply(&Op::State);
                 r.apply(&Op::Close);
                 let files = r.real.files();
+                if files.is_empty() {
+                    r.violate("C17", "no regular WAL file is left in the directory after a clean close".to_string());
+                    return finish_pub(r, id, false);
+                }
                 let mut newn: Vec<u64> = Vec::new();
                 let mut next = files[0] + rng.below(5);
                 for _ in &files {
